@@ -25,6 +25,10 @@ CLAIMED = {
          "13 statement kinds, scripts of 2-3 statements; numbers unbounded; variables do not read balances."),
  "C10": ("§6 C10", "Each script (balance()/overdraft()/meta() origins, saves, account variables, two assets) is run against four harness stores (exact, sparse, superset, static) over one symbolic truth table inside a single symbolic path; results are asserted pairwise identical for every table, and the exact store asserts that @world is never requested.",
          "23 (quick) / 31 (thorough) templates; <=4 accounts x 2 assets; stores returning nil maps are outside."),
+ "C11": ("§6 C11", "Four harness modes per script, all on symbolic balances: purity (write-confinement monitor over the VM heap + explicit comparison of the variables map and the store's balance/metadata maps), determinism (second run under every iteration order of the maps it ranges over), flags (no flag / gate flag / unknown flag), re-entrancy by reduction (two runs on one ParseResult write only objects they allocated; no package-level variable is written).",
+         "Goroutine interleavings are NOT modelled: re-entrancy is decided by write confinement (disjoint write sets cannot interfere); native replay of a confinement finding runs under the race detector. Maps > 3 entries: identity/reverse/rotation orders only."),
+ "C12": ("§6 C12", "Every reachable Go panic site on every explored path is a violation (API template families, arbitrary variable bytes per declared type through the symbolic regexp/SetString models, one trigger per error class, store failure injected at every call, nil store maps); errors must carry the class naming the cause and come with the zero result.",
+         "Variable texts <= 3 (quick) / 5 (thorough) arbitrary bytes; script families as C01/C03/C05/C08/C10."),
 }
 
 NA = {}
